@@ -220,3 +220,6 @@ def _history(env, cfg, ctx):
                       for c in draws if c[0] in ('randrange', 'randint')) and (len(draws) >= 1 or (cfg['strat'] != 'joint' and not S)),
                   detail=f"step {t}: storage holds {len(now)} rows, draws {[(c[0], c[1]) for c in draws]}")
         env.claim('storage_object_still_the_given_one', imp.storage_object is storage)
+
+
+META['explanation'] += ' Histories on one imputer object with an arbitrary subset per call and a second imputer object in the same process.'
